@@ -85,6 +85,13 @@ def schedules(fam):
                       [opn("c1"), sub("c1", "a"), Q, ev("a", "change", k="x", val=R("d"), **st), dict(reply("get", "d"), **st),
                        ev("d", "custom", **st), ev("d", "change", k="w", val=P("5"), **st), dict(reply("get", "e"), **st), Q, ev("d", "custom"), Q]))
     if fam == "stream":
+        # a resource that has changed since it was loaded is deleted by a not-found answer to a reset's re-fetch: every
+        # holder gets the delete event
+        out.append(SC(fam, "resetnotfound", {"a": Mo(x=P("1")), "b": {"k": "c", "c": [P("1")]}},
+                      [opn("c1"), opn("c2"), sub("c1", "a"), sub("c1", "b"), Q, sub("c2", "a"), Q, ev("a", "change", k="x", val=P("2")), ev("b", "add", a=0, val=P("5")), Q,
+                       {"op": "gone", "n": "a"}, {"op": "gone", "n": "b"}, {"op": "reset", "res": ["a", "b"], "acc": [], "settle": True},
+                       dict(reply("get", "a"), settle=True), dict(reply("get", "b"), settle=True), Q]))
+    if fam == "stream":
         # a change event replaces the reference x -> d by x -> c while c, still to be loaded, refers to d: the client holds d
         # throughout, so an event on d handed over meanwhile must reach it (defect repaired by fix ca71fbd)
         out.append(SC(fam, "refswap", {"a": Mo(x=R("d")), "d": Mo(w=P("0")), "c": Mo(x=R("d"), z=P("1"))},
